@@ -72,7 +72,7 @@ theorem parseParams_body (fs : List Bytes) (h : ∀ g ∈ fs, bsl ∉ g) : parse
   unfold parseParams
   cases fs with
   | nil =>
-    simp only [body_nil, List.length_nil, Nat.zero_add, parseFieldsLoop, consumeField, Res.ok_bind, Res.pure_eq]
+    simp only [body_nil, List.length_nil, parseFieldsLoop, consumeField, Res.pure_eq]
     rfl
   | cons f t =>
     rw [parseFieldsLoop_body f t h _ (by omega)]
